@@ -28,6 +28,28 @@ class A(pg.Object):
     _record_event(self, field_updates)
 
 
+class B(pg.Object):
+  """Test class with a required field (no default): created with B.partial()."""
+  z: Any
+  w: Any = None
+  allow_symbolic_assignment = True
+
+  def _on_change(self, field_updates):
+    _record_event(self, field_updates)
+
+
+OKEYS_B = {1: 'z', 2: 'w'}
+PH = 150
+
+
+def keymap(o):
+  if isinstance(o, A):
+    return OKEYS
+  if isinstance(o, B):
+    return OKEYS_B
+  return DKEYS
+
+
 _EVENT_SINK: Optional[List] = None
 
 
@@ -61,6 +83,8 @@ def new_root(kind: str):
     o = pg.List(onchange_callback=_make_cb(holder))
   elif kind == 'obj':
     o = A()
+  elif kind == 'objb':
+    o = B.partial()
   else:
     raise ValueError(kind)
   holder[0] = o
@@ -105,7 +129,7 @@ class Replayer:
     if k >= 1000:
       return k - 1000
     o = self.obj[n]
-    return OKEYS[k] if isinstance(o, A) else DKEYS[k]
+    return keymap(o)[k]
 
   def vd(self, v: int):
     if v >= INS:
@@ -122,6 +146,11 @@ class Replayer:
       return []
     if v == 211:
       return [{}]
+    if v == PH:
+      return pg.oneof([1, 2])
+    if v == 221:
+      with pg.allow_writable_accessors(None), pg.as_sealed(None):
+        return B.partial()
     if v == 220:
       # building the argument is not the operation under test: keep it out of the scoped overrides
       with pg.allow_writable_accessors(None), pg.as_sealed(None):
@@ -151,7 +180,7 @@ class Replayer:
     o = self.obj[n]
     key = self.key_of(n, k)
     v = self.vd(vd)
-    if isinstance(o, A):
+    if isinstance(o, (A, B)):
       setattr(o, key, v)
     else:
       o[key] = v
@@ -247,7 +276,7 @@ class Replayer:
         if kc >= 1000:
           keys.append(kc - 1000)
         else:
-          keys.append(OKEYS[kc] if isinstance(cur, A) else DKEYS[kc])
+          keys.append(keymap(cur)[kc])
         try:
           cur = cur.sym_getattr(keys[-1]) if isinstance(cur, pg.Symbolic) else None
         except Exception:  # pylint: disable=broad-except
@@ -264,7 +293,7 @@ class Replayer:
     return o.clone(deep=deep)
 
   def do_JsonRoundTrip(self, n):
-    return pg.from_json(pg.to_json(self.obj[n]))
+    return pg.from_json(pg.to_json(self.obj[n]), allow_partial=True)
 
   def do_Seal(self, n, b):
     self.obj[n].seal(b)
@@ -316,15 +345,13 @@ class Replayer:
   # ---- projection and comparison ----------------------------------------------
   @staticmethod
   def items_of(o):
-    if isinstance(o, A):
-      return [(k, v) for k, v in o.sym_items()]
     return list(o.sym_items())
 
   def spec_items(self, st, n):
     kind = st['kind'][n - 1]
     if kind == 'list':
       return [(i, v) for i, v in enumerate(st['litems'][n - 1])]
-    inv = OKEYS if kind == 'obj' else DKEYS
+    inv = {'obj': OKEYS, 'objb': OKEYS_B}.get(kind, DKEYS)
     return [(inv[k], v) for k, v in st['ditems'][n - 1]]
 
   def match_value(self, specv, pyv) -> bool:
@@ -334,6 +361,8 @@ class Replayer:
       return pyv is None
     if specv == MISSING:
       return pyv == pg.MISSING_VALUE
+    if specv == PH:
+      return isinstance(pyv, pg.hyper.OneOf)
     return type(pyv) is int and pyv == specv
 
   def bind_new(self, st, pre_alive: Set[int], ret):
@@ -358,7 +387,7 @@ class Replayer:
           continue
         key = st['pkey'][n - 1]
         po = self.obj[par]
-        pk = key - 1000 if key >= 1000 else (OKEYS[key] if isinstance(po, A) else DKEYS[key])
+        pk = key - 1000 if key >= 1000 else keymap(po)[key]
         try:
           child = po.sym_getattr(pk)
         except Exception as e:  # pylint: disable=broad-except
@@ -393,7 +422,7 @@ class Replayer:
       for (ek, ev), (gk, gv) in zip(exp, got):
         if ek != gk or not self.match_value(ev, gv):
           raise Divergence('content', f'node {n}: spec {exp} impl {got!r}')
-      want_cls = {'dict': pg.Dict, 'list': pg.List, 'obj': A}[kinds[n - 1]]
+      want_cls = {'dict': pg.Dict, 'list': pg.List, 'obj': A, 'objb': B}[kinds[n - 1]]
       if type(o) is not want_cls:
         raise Divergence('content', f'node {n}: class {type(o).__name__} expected {want_cls.__name__}')
     # -- returned value
@@ -405,7 +434,7 @@ class Replayer:
     seen = {}
     for n in alive:
       for k, v in self.items_of(self.obj[n]):
-        if isinstance(v, pg.Symbolic):
+        if isinstance(v, pg.Symbolic) and not isinstance(v, pg.hyper.OneOf):
           if id(v) in seen:
             raise Divergence('oneplace', f'object stored at {seen[id(v)]} and at {(n, k)}')
           seen[id(v)] = (n, k)
@@ -428,7 +457,7 @@ class Replayer:
       while st['parent'][m - 1] != 0:
         p = st['parent'][m - 1]
         kc = st['pkey'][m - 1]
-        keys.append(kc - 1000 if kc >= 1000 else (OKEYS[kc] if isinstance(self.obj[p], A) else DKEYS[kc]))
+        keys.append(kc - 1000 if kc >= 1000 else keymap(self.obj[p])[kc])
         m = p
       keys.reverse()
       root = self.obj[m]
@@ -448,11 +477,15 @@ class Replayer:
       o = self.obj[n]
       if bool(o.is_sealed) != st['sealed'][n - 1]:
         raise Divergence('flags', f'node {n}: is_sealed {o.is_sealed} spec {st["sealed"][n - 1]}')
-      if kinds[n - 1] != 'obj' and bool(o.accessor_writable) != st['accw'][n - 1]:
+      if kinds[n - 1] in ('dict', 'list') and bool(o.accessor_writable) != st['accw'][n - 1]:
         raise Divergence('flags', f'node {n}: accessor_writable {o.accessor_writable} spec {st["accw"][n - 1]}')
     # -- events
     if 'events' in self.clauses:
       self.compare_events(st)
+    # -- derived facts (read on the live objects after every call, so memos are always populated)
+    if 'facts' in self.clauses:
+      for n in alive:
+        self.compare_facts(st, n)
 
   def path_codes_to_str(self, recv_n, codes):
     keys = []
@@ -461,7 +494,7 @@ class Replayer:
       if kc >= 1000:
         keys.append(kc - 1000)
       else:
-        keys.append(OKEYS[kc] if isinstance(cur, A) else DKEYS[kc])
+        keys.append(keymap(cur)[kc])
       try:
         cur = cur.sym_getattr(keys[-1])
       except Exception:  # pylint: disable=broad-except
@@ -506,6 +539,50 @@ class Replayer:
         if m in pos and pos[m] < pos[n]:
           raise Divergence('events', f'ancestor {m} notified before descendant {n}')
         m = parent[m - 1]
+
+  def nondefault_locations(self, o, prefix=()):
+    """Leaf locations sym_nondefault() reports, normalised: whole symbolic values are expanded,
+    anything below a placeholder is collapsed to the placeholder's location."""
+    out = set()
+    for key in o.sym_nondefault(flatten=True):
+      kp = pg.KeyPath.parse(key) if isinstance(key, str) else pg.KeyPath(key)
+      cur = o
+      loc = []
+      hit_ph = False
+      for k in kp.keys:
+        cur = cur.sym_getattr(k)
+        loc.append(k)
+        if isinstance(cur, pg.hyper.OneOf):
+          hit_ph = True
+          break
+      if hit_ph or not isinstance(cur, pg.Symbolic):
+        out.add(str(pg.KeyPath(list(prefix) + loc)))
+      else:
+        out |= self.nondefault_locations(cur, tuple(prefix) + tuple(loc))
+    return out
+
+  def compare_facts(self, st, n):
+    f = st['facts'][n - 1]
+    if not f[0]:
+      return
+    o = self.obj[n]
+    want_missing = {self.path_codes_to_str(n, p) for p in f[1]}
+    got_missing = {str(k) for k in o.sym_missing(flatten=True)}
+    if want_missing != got_missing:
+      raise Divergence('facts', f'node {n}: sym_missing() {sorted(got_missing)} expected {sorted(want_missing)}')
+    if bool(o.is_partial) != bool(want_missing):
+      raise Divergence('facts', f'node {n}: is_partial {o.is_partial} expected {bool(want_missing)}')
+    want_nd = {self.path_codes_to_str(n, p) for p in f[2]}
+    got_nd = self.nondefault_locations(o)
+    if want_nd != got_nd:
+      raise Divergence('facts', f'node {n}: sym_nondefault() locations {sorted(got_nd)} expected {sorted(want_nd)}')
+    if bool(o.sym_puresymbolic) != f[3] or bool(pg.is_deterministic(o)) == f[3]:
+      raise Divergence('facts', f'node {n}: sym_puresymbolic {o.sym_puresymbolic} / is_deterministic '
+                                f'{pg.is_deterministic(o)} expected placeholder-present = {f[3]}')
+
+  def do_ReadFacts(self, n):
+    o = self.obj[n]
+    o.sym_missing(); o.sym_nondefault(); _ = o.sym_puresymbolic, o.is_partial
 
   def match_old(self, specv, pyv):
     # an old value that was a node: the spec id may have been freed/forgotten; compare identity when bound
